@@ -14,10 +14,13 @@ func parseUrlPath(pathStr string, m meta.Definition) ([]*Path, error) {
 	p := &Path{Meta: m}
 	path := []*Path{}
 	segments := strings.Split(pathStr, "/")
-	for _, segment := range segments {
+	for i, segment := range segments {
 
 		// a/b/c same as a/b/c/
 		if segment == "" {
+			if i < len(segments)-1 && strings.Join(segments[i:], "") != "" {
+				return nil, fmt.Errorf("%w. empty segment in %s", fc.BadRequestError, pathStr)
+			}
 			break
 		}
 
@@ -50,19 +53,27 @@ func parseUrlPath(pathStr string, m meta.Definition) ([]*Path, error) {
 		if !hasDefs {
 			return nil, fmt.Errorf("%w. %s is below %s which has no children", fc.BadRequestError, ident, p.Meta.Ident())
 		}
-		seg.Meta = meta.Find(parentDefs, ident)
-		if seg.Meta == nil {
-			// check for fully qualified ident
-			if colon := strings.IndexRune(ident, ':'); colon > 0 {
-				module := ident[:colon]
-				ident = ident[colon+1:]
-				potential := meta.Find(parentDefs, ident)
-				if potential != nil {
-					if meta.NamespaceModule(potential).Ident() == module {
-						seg.Meta = potential
-					}
+		if strings.ContainsRune(ident, '/') {
+			// (an encoded slash is part of a name, and no name has one)
+			return nil, fmt.Errorf("%w. %s not found in %s", fc.NotFoundError, ident, p.Meta.Ident())
+		}
+		if colon := strings.IndexRune(ident, ':'); colon > 0 {
+			// module qualified: the name has to be in this parent and come from that module
+			// (given by its name, or by the prefix it gives itself)
+			module := ident[:colon]
+			ident = ident[colon+1:]
+			if potential := meta.Find(parentDefs, ident); potential != nil {
+				if from := meta.NamespaceModule(potential); from.Ident() == module || from.Prefix() == module {
+					seg.Meta = potential
 				}
 			}
+		} else {
+			seg.Meta = meta.Find(parentDefs, ident)
+		}
+		switch seg.Meta.(type) {
+		case *meta.Choice, *meta.ChoiceCase:
+			// choices and cases are not in the data, a path cannot name them
+			seg.Meta = nil
 		}
 		if seg.Meta == nil {
 			return nil, fmt.Errorf("%w. %s not found in %s", fc.NotFoundError, ident, p.Meta.Ident())
